@@ -1,10 +1,12 @@
 #!/bin/sh
-# build_cpp.sh [repo] : build the C++ spec reader from <repo>'s sources into /verif/.build/cpp/<content-hash>/
+# build_cpp.sh [repo] : build the C++ spec reader from <repo>'s sources into <verif>/.build/cpp/<content-hash>/
+# (<verif> = the checkout this script belongs to)
 # prints the directory that contains sa_fandango_cpp_parser*.so
 set -e
 repo=${1:-/repo}
+here=$(cd "$(dirname "$0")/.." && pwd)
 h=$( (cd "$repo" && cat CMakeLists.txt && find src/fandango/language/cpp_parser -type f \( -name '*.cpp' -o -name '*.h' \) | sort | xargs cat) | sha256sum | cut -c1-16)
-out=/verif/.build/cpp/$h
+out=$here/.build/cpp/$h
 if ls "$out"/sa_fandango_cpp_parser*.so >/dev/null 2>&1; then echo "$out"; exit 0; fi
 mkdir -p "$out/build"
 cd "$out/build"
@@ -14,5 +16,5 @@ make -j16 >/dev/null 2>&1
 cp sa_fandango_cpp_parser*.so "$out/"
 cd "$out" && rm -rf build
 # keep only the two most recent builds
-ls -dt /verif/.build/cpp/*/ | tail -n +3 | xargs -r rm -rf
+ls -dt "$here"/.build/cpp/*/ | tail -n +5 | xargs -r rm -rf
 echo "$out"
